@@ -80,6 +80,29 @@ int main(int argc, char** argv)
 			}
 		}
 	}
+	else if (label.find("C18.target") != std::string::npos)
+	{
+		// the verifier's counterexample is a byte string of arbitrary length; the driver searches the small URIs natively instead:
+		// every path of up to 3 characters over { / : ? a 1 } behind a literal and behind a named authority.  The origin answers
+		// every request that reaches it (200 or 404); a 503 or no answer means the proxy split host / port wrongly.
+		const char alpha[] = { '/', ':', '?', 'a', '1' };
+		std::vector<std::string> paths = { "", "/" };
+		for (char a : alpha) { paths.push_back(std::string("/") + a); for (char b : alpha) paths.push_back(std::string("/") + a + b); }
+		for (int named = 0; named < 2 && !bad; ++named)
+			for (auto const& path : paths)
+			{
+				session s;
+				std::string host = named ? "origin.com:8080" : "10.0.0.3:8080";
+				s.run("GET http://" + host + path + " HTTP/1.1\r\n\r\n", 5);
+				bool const from_origin = s.received.find("HTTP/1.1 200") == 0 || s.received.find("HTTP/1.1 404") == 0;
+				if (!from_origin)
+				{
+					std::fprintf(stderr, "[C18.target] GET http://%s%s: the origin's answer was not relayed (proxy answered: %.40s): host / port were not taken from the authority\n",
+						host.c_str(), path.c_str(), s.received.empty() ? "<nothing>" : s.received.c_str());
+					bad = 1; break;
+				}
+			}
+	}
 	else if (label.find("C18.frame") != std::string::npos)
 	{
 		// 65536 bytes of header without the terminating blank line
